@@ -1,4 +1,5 @@
 import Bch.Proofs.Address
+import Bch.Proofs.CashAddrSpec
 /-
 C01 — "Every constructible address survives encode -> decode unchanged."
 
@@ -11,8 +12,8 @@ Proofs: `Bch/Proofs/CashAddrBits.lean` (regrouping), `CashAddrPoly.lean` (checks
 
 Not covered here (see the report): `C01_script_ctors` (the model has no script-taking constructors; the
 harness driver composes `newSh (X.hash160 script)` itself, and the round trips below quantify over every
-hash) and `C01_spec_strings` against an independent `Spec` transcription (only the structural form
-`C01_cash_string_form` and the published test vector are given).
+hash). The comparison with an independent transcription of the CashAddr specification
+(`Bch/Spec/CashAddrSpec.lean`) is `C01_spec_strings` in section 11 (proofs: `Bch/Proofs/CashAddrSpec.lean`).
 -/
 namespace Bch.Props.C01
 open Bch Bch.Model Bch.Model.CashAddr Bch.Model.Address
@@ -308,5 +309,75 @@ example : (EncodeAddress Xtoy (.sh32 (List.replicate 32 0xff) regTest.cashPrefix
   decide +kernel
 example : DecodeAddress Xtoy (EncodeAddress Xtoy (.pkh (List.replicate 20 0xab) mainNet.slpPrefix)) mainNet
     = .ok (.pkh (List.replicate 20 0xab) mainNet.slpPrefix) := by decide +kernel
+
+/-! ### 11. the strings are the ones the specifications prescribe -/
+
+/-- **C01_spec_strings** (full). For every prefix and every hash of 20 bytes (P2PKH, P2SH) or 32 bytes
+(P2SH32), the string `EncodeAddress` returns is exactly the one the CashAddr specification prescribes, as
+transcribed independently in `Bch.Spec.CashAddr` (regrouping on the big-endian number, reference `PolyMod`,
+charset): type 0 / type 1 with the size code of the hash length — the 32-byte form has type 1 and size
+code 3, i.e. version byte 0x0b. -/
+theorem C01_spec_strings (X : Ext) (pre h : Bytes) :
+    (h.length = 20 → some (EncodeAddress X (.pkh h pre)) = Spec.CashAddr.cashaddrEncode pre 0 h) ∧
+    (h.length = 20 → some (EncodeAddress X (.sh h pre)) = Spec.CashAddr.cashaddrEncode pre 1 h) ∧
+    (h.length = 32 → some (EncodeAddress X (.sh32 h pre)) = Spec.CashAddr.cashaddrEncode pre 1 h) := by
+  obtain ⟨v0, v1, v2⟩ := Bch.Proofs.CashAddrSpec.versionByte_vals
+  refine ⟨fun hl => ?_, fun hl => ?_, fun hl => ?_⟩
+  · have := Bch.Proofs.CashAddrSpec.spec_string X 0 0 h pre (Or.inl ⟨rfl, rfl, hl⟩)
+    rw [Spec.CashAddr.cashaddrEncode, hl, v0]; exact congrArg some this
+  · have := Bch.Proofs.CashAddrSpec.spec_string X 1 8 h pre (Or.inr (Or.inl ⟨rfl, rfl, hl⟩))
+    rw [Spec.CashAddr.cashaddrEncode, hl, v1]; exact congrArg some this
+  · have := Bch.Proofs.CashAddrSpec.spec_string X 2 11 h pre (Or.inr (Or.inr ⟨rfl, rfl, hl⟩))
+    rw [Spec.CashAddr.cashaddrEncode, hl, v2]; exact congrArg some this
+
+/-- The pieces separately, for every input (no length restriction): the model's 8→5 regrouping is the
+spec's number-level regrouping, and the model's checksum symbols are the spec's `PolyMod` groups. -/
+theorem C01_spec_pieces (pre bs pl : Bytes) :
+    convertBits bs 8 5 true = some ((Spec.CashAddr.regroup5 (bs.map UInt8.toNat)).map UInt8.ofNat) ∧
+    (createChecksum pre pl).map UInt8.toNat = Spec.CashAddr.checksum pre (pl.map UInt8.toNat) :=
+  ⟨Bch.Proofs.CashAddrSpec.convertBits_eq_regroup5 bs, Bch.Proofs.CashAddrSpec.createChecksum_eq pre pl⟩
+
+/-- **legacy strings** (full): the legacy P2PKH / P2SH string of a 20-byte hash is
+`Base58(version ‖ hash ‖ SHA256d(version ‖ hash)[0:4])`. -/
+theorem C01_spec_strings_legacy (X : Ext) (h : Bytes) (id : UInt8) (hl : h.length = 20) :
+    EncodeAddress X (.legacyPkh h id) = Spec.CashAddr.base58check X.sha256d id h ∧
+    EncodeAddress X (.legacySh h id) = Spec.CashAddr.base58check X.sha256d id h := by
+  have htake : h.take 20 = h := List.take_of_length_le (by omega)
+  constructor <;>
+    simp [EncodeAddress, htake, Spec.CashAddr.base58check, Base58.CheckEncode, Base58.checksum]
+
+/-- the published test vectors of the CashAddr specification, evaluated on the SPEC transcription
+(tests of the transcription, not the claim): 20-byte payload F5BF48B3…DAC9 -/
+def specVec20 : Bytes :=
+  [0xF5, 0xBF, 0x48, 0xB3, 0x97, 0xDA, 0xE7, 0x0B, 0xE8, 0x2B, 0x3C, 0xCA, 0x47, 0x93, 0xF8, 0xEB, 0x2B, 0x6C,
+   0xDA, 0xC9]
+
+example : Spec.CashAddr.cashaddrEncode (Bytes.ofString "bitcoincash") 0 specVec20
+    = some (Bytes.ofString "qr6m7j9njldwwzlg9v7v53unlr4jkmx6eylep8ekg2") := by decide +kernel
+example : Spec.CashAddr.cashaddrEncode (Bytes.ofString "bchtest") 1 specVec20
+    = some (Bytes.ofString "pr6m7j9njldwwzlg9v7v53unlr4jkmx6eyvwc0uz5t") := by decide +kernel
+example : Spec.CashAddr.cashaddrEncode (Bytes.ofString "pref") 1 specVec20
+    = some (Bytes.ofString "pr6m7j9njldwwzlg9v7v53unlr4jkmx6ey65nvtks5") := by decide +kernel
+example : Spec.CashAddr.cashaddrEncode (Bytes.ofString "prefix") 15 specVec20
+    = some (Bytes.ofString "0r6m7j9njldwwzlg9v7v53unlr4jkmx6ey3qnjwsrf") := by decide +kernel
+/-- 24-byte (192-bit) and 32-byte (256-bit) payloads of the specification's table -/
+example : Spec.CashAddr.cashaddrEncode (Bytes.ofString "bitcoincash") 0
+      [0x7A, 0xDB, 0xF6, 0xC1, 0x70, 0x84, 0xBC, 0x86, 0xC1, 0x70, 0x68, 0x27, 0xB4, 0x1A, 0x56, 0xF5, 0xCA, 0x32,
+       0x86, 0x59, 0x25, 0xE9, 0x46, 0xEA]
+    = some (Bytes.ofString "q9adhakpwzztepkpwp5z0dq62m6u5v5xtyj7j3h2ws4mr9g0") := by decide +kernel
+example : Spec.CashAddr.cashaddrEncode (Bytes.ofString "bitcoincash") 0
+      [0x31, 0x73, 0xEF, 0x66, 0x23, 0xC6, 0xB4, 0x8F, 0xFD, 0x1A, 0x3D, 0xCC, 0x0C, 0xC6, 0x48, 0x9B, 0x0A, 0x07,
+       0xBB, 0x47, 0xA3, 0x7F, 0x47, 0xCF, 0xEF, 0x4F, 0xE6, 0x9D, 0xE8, 0x25, 0xC0, 0x60]
+    = some (Bytes.ofString "qvch8mmxy0rtfrlarg7ucrxxfzds5pamg73h7370aa87d80gyhqxq5nlegake") := by decide +kernel
+/-- sizes the version byte cannot express are refused by the spec encoder -/
+example : Spec.CashAddr.cashaddrEncode (Bytes.ofString "bitcoincash") 0 [1, 2, 3] = none := by decide +kernel
+
+/-- … and the same vectors through the MODEL (`EncodeAddress`), as `C01_spec_strings` says -/
+example : EncodeAddress Xtoy (.pkh specVec20 (Bytes.ofString "bitcoincash"))
+    = Bytes.ofString "qr6m7j9njldwwzlg9v7v53unlr4jkmx6eylep8ekg2" := by decide +kernel
+example : EncodeAddress Xtoy (.sh specVec20 (Bytes.ofString "bchtest"))
+    = Bytes.ofString "pr6m7j9njldwwzlg9v7v53unlr4jkmx6eyvwc0uz5t" := by decide +kernel
+/-- non-vacuity of the length hypotheses -/
+example : specVec20.length = 20 ∧ (List.replicate 32 (0 : UInt8)).length = 32 := by decide
 
 end Bch.Props.C01
